@@ -11,6 +11,7 @@ From QSX Require Import Fac.FTUpdate.
 From QSX Require Import Store.Matrix Store.L2.
 From QSX Require Import IO.LpWrite IO.LpRead IO.MpsWrite IO.LpRoundtrip IO.LpNames.
 From QSX Require Import Store.RawLoad.
+From QSX Require Import Fac.LUFactor Fac.TopoOrder.
 (* one Require line per area may be added below *)
 
 Extraction Language OCaml.
@@ -34,5 +35,6 @@ Extraction "model.ml"
   l2_step_c l2_load_c l2_copy_c empty_lstore lwf_check wf_check abs col_ents
   write_lp file_bytes read_lp_res split_lines to_nlp write_mps wf_lpb fix_names default_objname
   lib_load_raw_c merge_col_c
+  lu_factor lu_steps lu_init lu_kernel lu_auto_pivots repr_same_lu repair_cols check_sing_report lines_eqb etas_eqb natlist_eqb listed_order_ok
   (* add names below, one line per area *)
   .
